@@ -90,6 +90,10 @@ func VerifC02Step() {
 	inv := vsym.Param("inv") == 1
 	a, da := vGenBitmap("a")
 	post := da
+	// chunks that are shared (flag set) before the call: the same container object may not lose its flag through the call,
+	// otherwise a later mutation writes into a chunk another bitmap still uses
+	preCs := append([]container(nil), a.highlowcontainer.containers...)
+	preFlags := append([]bool(nil), a.highlowcontainer.needCopyOnWrite...)
 	switch m {
 	case 0, 1, 2:
 		x := vArg32()
@@ -164,6 +168,21 @@ func VerifC02Step() {
 		a.CloneCopyOnWriteContainers()
 	case 13:
 		a.SetCopyOnWrite(vsym.Bool())
+	}
+	if m != 11 && m != 12 { // Clone returns a new bitmap; CloneCopyOnWriteContainers is the documented way to drop the flags
+		kept := true
+		ra := &a.highlowcontainer
+		for i := range ra.containers {
+			if i >= len(ra.needCopyOnWrite) {
+				break
+			}
+			for j := range preCs {
+				if ra.containers[i] == preCs[j] {
+					kept = vsym.And(kept, vsym.Implies(preFlags[j], ra.needCopyOnWrite[i]))
+				}
+			}
+		}
+		vsym.Assert(kept, "cow-flag-dropped")
 	}
 	vsym.Observe(uint64(len(a.highlowcontainer.keys)))
 	if inv {
